@@ -336,15 +336,23 @@ def step (s : S) (ts : List String) : S × String :=
           | .header h :: rest => Rec.header { h with marker := h.marker + 1 } :: rest
           | r => r
         let sigv := if signature sp2 = sig then "same" else verdict (loadGraph m (signature sp2) csig recs)
-        let otherM := if pd.cdim.isSome then markerPD else markerPDC
-        let otherC : List Int := if pd.cdim.isSome then [] else [2, 1, 1]
-        let cross := verdict (loadGraph otherM sig otherC recs)
         match loadGraph m sig csig recs with
         | .ok g' =>
-          (s, s!"ok=1 {dumpGraph g'} marker={verdict (loadGraph m sig csig flipped)} sig={sigv} cross={cross}")
+          (s, s!"ok=1 {dumpGraph g'} marker={verdict (loadGraph m sig csig flipped)} sig={sigv}")
         | .error _ => (s, "ok=0")
       | _, _ => bad
     | _, _ => bad
+  | ["pdcross"] =>
+    match s.pd with
+    | some pd =>
+      match lookup s.spaces pd.space with
+      | some sp =>
+        let recs := storeGraph (pdMarker pd) (signature sp) (ctrlSig pd.cdim) pd.g
+        let otherM := if pd.cdim.isSome then markerPD else markerPDC
+        let otherC : List Int := if pd.cdim.isSome then [] else [2, 1, 1]
+        (s, s!"cross={verdict (loadGraph otherM (signature sp) otherC recs)}")
+      | none => bad
+    | none => bad
   | _ => bad
 
 def init (ts : List String) : Option S :=
